@@ -197,7 +197,7 @@ def finish(check, t0, level, level_text, trusted_base, mutation=None, print_fn=p
         samples.append({"rule": f.rule, "finding": f.key, "message": f.msg, "known": any(f is kf_[0] for kf_ in known)})
     coverage = {
         "obligations": n_ob,
-        "discharged": n_dis + len(known),
+        "discharged": n_dis,
         "open_obligations_listed_as_known_findings": len(known),
         "violations_new": len(viol),
         "checker_cmd": "./check %s --tier %s" % (prop, check.tier),
